@@ -23,28 +23,25 @@ GOROOT = "/opt/veriftools/go1.26.8"
 GO = os.path.join(GOROOT, "bin", "go")
 BUILD = os.path.join(VERIF, ".build")
 
-# group -> {"rewrites": {repo-relative file: {old import: new import}}}
-GROUPS = {
-    "xds": {},
-    "gen": {},
-    "sec": {},
-    "ctl": {},
-    "misc": {},
+# Every directory under /verif/harness is a group (one test binary). Groups whose istio files are
+# compiled against shims list their import rewrites here.
+REWRITES = {
     "shard": {
-        "rewrites": {
-            "pilot/pkg/model/endpointshards.go": {'"sync"': 'sync "istio.io/istio/pkg/verifshim/vsync"'},
-        }
+        "pilot/pkg/model/endpointshards.go": {'"sync"': 'sync "istio.io/istio/pkg/verifshim/vsync"'},
     },
     "agent": {
-        "rewrites": {
-            "security/pkg/nodeagent/cache/secretcache.go": {
-                '"sync"': 'sync "istio.io/istio/pkg/verifshim/vsync"',
-                '"github.com/fsnotify/fsnotify"': 'fsnotify "istio.io/istio/pkg/verifshim/vfsnotify"',
-                '"math/rand/v2"': 'rand "istio.io/istio/pkg/verifshim/vrand"',
-            },
-        }
+        "security/pkg/nodeagent/cache/secretcache.go": {
+            '"sync"': 'sync "istio.io/istio/pkg/verifshim/vsync"',
+            '"github.com/fsnotify/fsnotify"': 'fsnotify "istio.io/istio/pkg/verifshim/vfsnotify"',
+            '"math/rand/v2"': 'rand "istio.io/istio/pkg/verifshim/vrand"',
+        },
     },
 }
+
+
+def groups():
+    d = os.path.join(VERIF, "harness")
+    return sorted(g for g in os.listdir(d) if os.path.isdir(os.path.join(d, g)))
 
 
 def goenv():
@@ -155,7 +152,6 @@ def rewrite_imports(relpath, mapping):
 
 def gen_overlay(group):
     """Regenerates /verif/.build/overlay-<group>.json from the working tree; returns its path."""
-    cfg = GROUPS[group]
     repl = {}
     rt = os.path.join(BUILD, "gen", "runtime_rand.go.txt")
     write_if_changed(rt, gen_runtime_rand())
@@ -183,7 +179,7 @@ def gen_overlay(group):
         for fn in sorted(files):
             if fn.endswith(".go"):
                 repl[os.path.join(REPO, rel, "zz_verif_" + fn)] = os.path.join(root, fn)
-    for relpath, mapping in cfg.get("rewrites", {}).items():
+    for relpath, mapping in REWRITES.get(group, {}).items():
         out = os.path.join(BUILD, "gen", group, relpath + ".txt")
         write_if_changed(out, rewrite_imports(relpath, mapping))
         repl[os.path.join(REPO, relpath)] = out
